@@ -20,7 +20,8 @@
 //     type; a pointer to a struct becomes `Option <structure>` and a field
 //     access through a nil pointer makes the result `none` (a panic);
 //   - statements: if / else, expression-less and tagged switch (no
-//     fallthrough), return (also naked), :=, =, op=, ++, --, var, local const
+//     fallthrough), return (also naked), :=, =, op=, ++, --, var (a variable
+//     of abstract type is not declared: only opaque calls can use it), local const
 //     (skipped: its uses are folded like every other constant), assignments
 //     to fields of the receiver or of local struct values; statements after a
 //     branching statement are duplicated into both branches;
@@ -1236,6 +1237,9 @@ func (c *fctx) stmts(list []ast.Stmt) string {
 				fail("var with values %s", c.show(x))
 			}
 			for _, n := range vs.Names {
+				if c.t.leanType(c.p.info.Defs[n].Type()) == "" {
+					continue // abstract type: only opaque calls can use it
+				}
 				z := c.zero(c.p.info.Defs[n].Type())
 				out += fmt.Sprintf("let %s : %s := %s\n", leanIdent(n.Name), c.t.leanType(c.p.info.Defs[n].Type()), z)
 			}
